@@ -61,8 +61,8 @@ def mk_sizer(c, broker):
     else:
         dh = StubPrices(c['prices'])
     if c['kind'] == 'long_only':
-        return DollarWeightedCashBufferedOrderSizer(broker, 'p', dh, cash_buffer_percentage=c['param'])
-    return LongShortLeveragedOrderSizer(broker, 'p', dh, gross_leverage=c['param'])
+        return DollarWeightedCashBufferedOrderSizer(broker, 'p', dh, cash_buffer_percentage=c.get('warm_param', c['param']))
+    return LongShortLeveragedOrderSizer(broker, 'p', dh, gross_leverage=c.get('warm_param', c['param']))
 
 
 def mk_universe(u):
@@ -73,6 +73,10 @@ def mk_universe(u):
     zones = ['America/New_York', 'Asia/Tokyo', 'Europe/London', 'Australia/Sydney']
     # 'tz': the same entry instants, written in other time zones
     when = (lambda i, e: ts(e).tz_convert(zones[i % 4])) if 'tz' in flags else (lambda i, e: ts(e))
+    if 'pydt' in flags:
+        # the same instants as standard-library datetime objects (time-zone aware)
+        when0 = when
+        when = lambda i, e: when0(i, e).to_pydatetime()
     return DynamicUniverse(dict((a, (missing if e is None else when(i, e))) for i, (a, e) in enumerate(u[1])))
 
 
@@ -91,6 +95,12 @@ def handler(c):
                     pass
             stub.equity = c['equity']
             stub.fee_model = mk_fee(c['fee'])
+            if 'warm_param' in c:
+                # the sizer was built (and used) with another buffer / leverage; its public attribute is set before this call
+                if c['kind'] == 'long_only':
+                    sizer.cash_buffer_percentage = c['param']
+                else:
+                    sizer.gross_leverage = c['param']
             r = sizer(ts(0), dict((a, w) for a, w in c['weights']))
             return ['ok', [[a, num(v['quantity'])] for a, v in r.items()], [type(v['quantity']).__name__ for v in r.values()]]
         if op == 'universe':
